@@ -6,6 +6,7 @@
                                       ` reads=<number of byte reads> max=<largest offset read | -1> len=<n> inb=<0|1>`
     open dlen=<length of the data file> fork=<hex | ->   -> ok ch= sr= frames= fmt= | err | unmodelled   (Sf.Sd2.reopen)
     detect <hex of the first bytes of the data file>     -> fork | other | unmodelled      (Sf.Sd2.reachesFork)
+    file data=<hex | -> fork=<hex | -> [old=1]          -> ok … | err | unmodelled   (Sf.Sd2.reopenFile; old=1: the rule before KF-C04-SD2-SHORT-DATA)
     strtol <hex>                                         -> the int `(int) strtol (s, NULL, 10)`
 -/
 import SfModel.Basic
@@ -51,6 +52,10 @@ def answer (line : String) : String :=
   | "parse" :: h :: _ => parseLine h
   | "open" :: rest =>
     showRes (reopen (bytesOf ((kvGet rest "fork").getD "-")) (kvNat rest "dlen" 0))
+  | "file" :: rest =>
+    let data := bytesOf ((kvGet rest "data").getD "-")
+    let fork := bytesOf ((kvGet rest "fork").getD "-")
+    showRes (if kvNat rest "old" 0 = 1 then reopenFileOld data fork else reopenFile data fork)
   | "detect" :: h :: _ =>
     match reachesFork (bytesOf h) with
     | some true => "fork"
